@@ -21,12 +21,27 @@ def usable_laws(c):
     return laws
 
 
+def _subsample(samples):
+    """first, last and an evenly spread selection"""
+    if len(samples) <= 14:
+        return samples
+    step = (len(samples) - 1) / 13.0
+    return [samples[int(round(k * step))] for k in range(14)]
+
+
 def observe(c):
+    """runs in a child: the whole trajectory is screened there by the model-independent oracle; a trajectory it does not object to
+    travels on as its 14-sample selection (what Coq is given anyway), one it objects to travels whole"""
     try:
         r = trajgen.run(c)
-        return {"samples": r["samples"], "iterations": r["iterations"], "units": r["data_units"]}
+        o = {"samples": r["samples"], "iterations": r["iterations"], "units": r["data_units"], "nsamples": len(r["samples"])}
     except Exception as e:
         return {"error": "%s: %s" % (type(e).__name__, str(e)[:100])}
+    if all(math.isfinite(v) for x in o["samples"] for v in x):
+        o["screen"] = oracle({"case": c, "obs": o})[0]
+        if o["screen"] is not False:
+            o["samples"] = _subsample(o["samples"])
+    return o
 
 
 def emit(c, o):
@@ -34,10 +49,7 @@ def emit(c, o):
     gc = "{| c2_sys := %s; c2_ue := %s; c2_chs := %s; c2_laws := %s; c2_exact := %s; c2_du := %s |}" % (
         sysgen.g_system(desc), si.g_usys(trajgen.engine_units(c)), g_list([g_bool(b) for b in c["chs"]]),
         g_list([g_list([g_z(v) for v in law]) for law in c["laws"]]), g_bool(c["engine"] != "euler"), si.g_usys(o.get("units", c["units"])))
-    samples = o.get("samples", [[1e300]])
-    if len(samples) > 14:      # first, last and an evenly spread selection (the Python oracle sees all of them)
-        step = (len(samples) - 1) / 13.0
-        samples = [samples[int(round(k * step))] for k in range(14)]
+    samples = _subsample(o.get("samples", [[1e300]]))      # the Python oracle has seen all of them (in the child)
     go = g_list([g_list([g_float(v) for v in row]) for row in samples])
     return "(%s)" % gc, go
 
@@ -131,7 +143,7 @@ def check(run):
     # every trajectory is screened by the model-independent oracle (cheap); the Coq verdict is computed for a
     # fixed-size prefix and for every trajectory the screen objects to
     ncoq = 150 if run.tier == "quick" else 3000
-    flagged = [it for it in items[ncoq:] if oracle(it)[0] is False][:20]
+    flagged = [it for it in items[ncoq:] if it["obs"].get("screen", oracle(it)[0]) is False][:20]
     run.extra["screened_by_property_oracle"] = len(items)
     run.extra["screen_objections"] = len(flagged)
     items = emit_items(items[:ncoq] + flagged)
@@ -143,7 +155,7 @@ def check(run):
         run.count("laws:%d" % len(c["laws"]))
         run.count("reactions:%d" % len(c["desc"]["reactions"]))
         events += it["obs"].get("iterations", 0)
-        it["nontrivial"] = len(it["obs"].get("samples", [])) > 1
+        it["nontrivial"] = it["obs"].get("nsamples", len(it["obs"].get("samples", []))) > 1
     run.extra["engine_iterations"] = events
     run.rule = ("random systems (as C01, integer molecule counts, random chemostat maps) x {euler, tauleap, gillespie} x {grid, graph} x four "
                 "sampling policies, 3-200 (3000) iterations; the harness offers a basis of the integer left null space of the stoichiometric "
